@@ -345,6 +345,59 @@ def stale_reset5(m, w):
     return w
 
 
+def reelected5(m, w):
+    """5 voters. A=n1 led term 1 and got four entries acknowledged by B=n2 only (never committed);
+    C=n3 led term 2 with D, E and replaced them on A; A leads again (term 3, votes of D and E) and has a
+    new entry that only D is about to receive, while B is still cut off. Acknowledgements of B from
+    A's first leadership must not count now."""
+    A, B, C, D, E = N1, N2, N3, N4, N5
+    hb = m.cfg.period + 0.001
+    el = m.cfg.tmin + 0.001
+    w = m.connect_all(w)
+    w = elect(m, w, A)
+    w = beat(m, w, A, times=2)
+    for x in (A, B):
+        for y in (C, D, E):
+            w = m.cut(w, x, y)
+    for _ in range(4):
+        w = m.do(w, ('S', A, 'free'))
+    w = m.do(w, ('Z', A))
+    w = beat(m, w, A, only=[A, B], times=2)
+    w = elect(m, w, C, only=[C, D, E])
+    w = beat(m, w, C, only=[C, D, E], times=2)
+    w = submit(m, w, C, 1, only=[C, D, E])
+    # A rejoins C, D, E (B stays away): its entries are replaced
+    w = m.cut(w, A, B)
+    for y in (C, D, E):
+        w = m.do(w, ('R', A, y, 'free'))
+    w = m.drain(w, only=[A, C, D, E], ticks=False)
+    w = beat(m, w, C, only=[A, C, D, E], times=4)
+    # A is elected again by D and E
+    w = m.do(w, ('T', A, el))
+    w = m.drain(w, only=[A, C, D, E], ticks=False)
+    w = m.cut(w, A, C)
+    w = m.cut(w, A, E)
+    w = m.do(w, ('S', A, 'free'), ('Z', A))
+    if not m.summary(w, A).leader_flag:
+        m.seed_shape_ok = False
+    return w
+
+
+def stalled_old_code(m, w, leader=N1):
+    """Mixed cluster (last voter runs old code): the cluster switched to a version the old node lacks
+    and committed two more commands; the old node is stalled at the switch (applied < commit)."""
+    w = steady(m, w, 1, leader)
+    w = m.do(w, ('V', leader, 1, 'free'), ('Z', leader))
+    w = m.drain(w)
+    w = beat(m, w, leader, times=3)
+    w = submit(m, w, leader, 2)
+    old = addr(m.cfg.n)
+    s = m.summary(w, old)
+    if not (s.applied < s.commit):
+        m.seed_shape_ok = False
+    return w
+
+
 def voted(m, w, cand=N1, voter=N2):
     """`cand` is candidate, `voter` has granted its vote (answer in flight), nobody else has
     seen the request yet."""
@@ -456,7 +509,7 @@ def candidates(m, w, who=(N1, N2)):
     return w
 
 
-SEEDS = dict(voted=voted, stale_reset5=stale_reset5, stale_vote5=stale_vote5, stale_snapshot=stale_snapshot, ahead_full=ahead_full, fig8_full=fig8_full, candidates=candidates, battery_lagsnap=battery_lagsnap, ahead=ahead, lagging_newleader=lagging_newleader, m_deposed=m_deposed, split=split, version_snap=version_snap, fresh=fresh, steady=steady, lagging=lagging, lagging_snap=lagging_snap, deposed=deposed,
+SEEDS = dict(voted=voted, stalled_old_code=stalled_old_code, reelected5=reelected5, stale_reset5=stale_reset5, stale_vote5=stale_vote5, stale_snapshot=stale_snapshot, ahead_full=ahead_full, fig8_full=fig8_full, candidates=candidates, battery_lagsnap=battery_lagsnap, ahead=ahead, lagging_newleader=lagging_newleader, m_deposed=m_deposed, split=split, version_snap=version_snap, fresh=fresh, steady=steady, lagging=lagging, lagging_snap=lagging_snap, deposed=deposed,
              deposed_snap=deposed_snap, deposed_twice=deposed_twice, pending=pending, reconnect_pipeline=reconnect_pipeline,
              forwarded=forwarded, fig8=fig8)
 
